@@ -66,7 +66,14 @@ def bind_args(it, fv: FuncVal, args, kwargs, fr: Frame):
             it.throw("TypeError", f"{fv.qualname}() missing required argument '{p.arg}'")
     extra = args[n_pos:]
     if a.vararg is not None:
-        fr.locals[a.vararg.arg] = tuple(extra)
+        sym = [x for x in extra if isinstance(x, tuple) and len(x) == 2 and x[0] == "*sym"]
+        if sym:
+            if len(extra) != 1:
+                raise Unsupported("symbolic *args mixed with other extra positional arguments")
+            from .symcoll import STup
+            fr.locals[a.vararg.arg] = STup(sym[0][1])
+        else:
+            fr.locals[a.vararg.arg] = tuple(extra)
     elif extra:
         it.throw("TypeError", f"{fv.qualname}() takes {n_pos} positional arguments but {len(args)} were given")
     for p, d in zip(a.kwonlyargs, a.kw_defaults):
